@@ -211,7 +211,7 @@ fn main() {
     run.assume("blanks are SP/TAB; bytes 0x85/0xA0 and CR/VT/FF are not generated (the statement does not say whether they are blanks)");
     run.assume("reference line parser and command table: mc/core/src/model/plist.rs; entries read through the verif hook Plist::verif_entries");
 
-    let l = run.pick(7, 9);
+    let l = run.pick(7, 10);
     run.bound(format!("(a) all {} byte strings of length <= {} over 6 bytes", seqs::count(6, l), l));
     seqs::par_seqs(&run, "C14(a)", BYTES.len(), l, 3, |_| false, |s, t| {
         let text: Vec<u8> = s.iter().map(|i| BYTES[*i]).collect();
